@@ -182,7 +182,8 @@ def p_auto(h, force, ask):
         if h["q"]:
             del h["q"][:]
             return True
-        h["_dec"] = False
+        if h.get("last") is None:
+            raise Stop()
         return False
     if k == "ksingle":
         return p_ksingle(h["m"], set(kk for kk, _ in (h.get("last") or [])), force, ask)
@@ -205,8 +206,6 @@ def p_run_hooks(hs, ask):
             if rc == 0:
                 raise Stop()
             rc -= 1
-        if not h["_dec"]:
-            raise Stop()
 
 
 def enum_scripts(proc, limit=4000):
@@ -300,8 +299,12 @@ def rand_queue(rng, maxlen, distinct=None):
 
 def rand_hook(rng, kind=None, maxlen=4, maxkeys=3):
     kind = kind or rng.choice(KINDS)
-    if kind in ("stream_t", "stream_n", "pass"):
+    if kind in ("stream_t", "stream_n"):
         return {"kind": kind, "q": rand_queue(rng, maxlen), "tr": None}
+    if kind == "pass":
+        q = rand_queue(rng, maxlen)
+        last = rng.choice([None, 5, 7]) if q or rng.chance(1, 8) else 5
+        return {"kind": kind, "q": q, "tr": None, "last": last}
     if kind == "single":
         q = rand_queue(rng, maxlen)
         last = rng.choice([None, 5, 7]) if q or rng.chance(1, 8) else 5
@@ -324,11 +327,11 @@ def rand_hook(rng, kind=None, maxlen=4, maxkeys=3):
 def small_hooks(kind, maxlen):
     """bounded-exhaustive hook configurations of one kind: queue lengths 0..maxlen"""
     out = []
-    if kind in ("stream_t", "stream_n", "pass"):
+    if kind in ("stream_t", "stream_n"):
         for n in range(maxlen + 1):
             out.append({"kind": kind, "q": [10 * (i + 1) for i in range(n)], "tr": None})
         out.append({"kind": kind, "q": [1, 1, 2][:maxlen], "tr": None})
-    elif kind == "single":
+    elif kind in ("single", "pass"):
         for n in range(maxlen + 1):
             for last in (None, 5):
                 out.append({"kind": kind, "q": [10 * (i + 1) for i in range(n)], "tr": None, "last": last})
@@ -383,7 +386,8 @@ def g_hook(h):
         return "(%s %s %s)" % ({"stream_t": "HStreamT", "stream_n": "HStreamN"}[k], g_ln(h["q"]),
                                g_opt(None if tr is None else g_ln(tr)))
     if k == "pass":
-        return "(HPass %s None)" % g_ln(h["q"])
+        last = h.get("last")
+        return "(HPass %s None %s)" % (g_ln(h["q"]), "None" if last is None else "(Some %d)" % last)
     if k == "single":
         last = h.get("last")
         return "(HSingle %s None %s)" % (g_ln(h["q"]), "None" if last is None else "(Some %d)" % last)
